@@ -222,6 +222,9 @@ class ClassInfo:
         return tuple(val)
 
 
+BASELINE_LOCALS = {"algorithms.isomorphism:_wrap_all.<local>wrapper"}
+
+
 class Program:
     """All modules of the package, parsed; class table with C3 MRO."""
 
@@ -469,8 +472,28 @@ class Program:
         the inventory and is not a literal."""
         new_funcs = set(self.norm_report.get("new_functions", []))
         new_names = set(self.norm_report.get("new_names", []))
+        # constructs no shape rule sees through, whatever the inventory says:
+        # a call through a table of callables, a call of a function defined
+        # inside fi that the normal form could not inline
+        local = []
+        inner = {n.name for n in ast.walk(fi.node)
+                 if n is not fi.node and isinstance(n, ast.FunctionDef)}
+        for n in ast.walk(fi.node):
+            if isinstance(n, ast.Call):
+                f = n.func
+                if isinstance(f, ast.Subscript):
+                    b = f.value
+                    bname = b.id if isinstance(b, ast.Name) else (
+                        b.attr if isinstance(b, ast.Attribute) else "")
+                    if bname not in self.classes and not bname[:1].isupper():
+                        local.append("calls through a table of callables "
+                                     f"(`{norm(f, 50)}(..)`)")
+                elif isinstance(f, ast.Name) and f.id in inner and \
+                        f"{fi.qual}.<local>{f.id}" not in BASELINE_LOCALS:
+                    local.append(f"calls the local function `{f.id}` (not "
+                                 "inlinable)")
         if not new_funcs and not new_names:
-            return []
+            return sorted(set(local))
         short_new = {q.split(":")[1].split(".")[-1]: q for q in new_funcs}
         out = []
         loopvars = set()
@@ -518,7 +541,7 @@ class Program:
                     if "." in q.split(":=")[1] and \
                             q.split(":=")[1].split(".")[-1] == n.attr:
                         out.append(f"reads the table {q}")
-        return sorted(set(out))
+        return sorted(set(out) | set(local))
 
     def inlined_away(self, qual: str) -> bool:
         """qual is a function outside the rule inventory that the normal form
